@@ -2,7 +2,8 @@ package registry
 
 import (
 	"go/types"
-	"strings"
+	"unicode"
+	"unicode/utf8"
 )
 
 // Var represents a method variable/parameter.
@@ -142,5 +143,12 @@ func basicTypeVarName(b *types.Basic) string {
 	return "v"
 }
 
-func capitalise(s string) string   { return strings.ToUpper(s[:1]) + s[1:] }
-func deCapitalise(s string) string { return strings.ToLower(s[:1]) + s[1:] }
+func capitalise(s string) string {
+	r, size := utf8.DecodeRuneInString(s)
+	return string(unicode.ToUpper(r)) + s[size:]
+}
+
+func deCapitalise(s string) string {
+	r, size := utf8.DecodeRuneInString(s)
+	return string(unicode.ToLower(r)) + s[size:]
+}
